@@ -1,11 +1,11 @@
 //! replay: read TLC output on stdin, execute every behaviour line against the
 //! real library, write a JSON report. Non-behaviour lines are copied to --tlc-log.
 //!
-//! Exit status: 0 always when the report could be written (the driver decides);
-//! 2 on tool errors.
+//! Lines are dealt to worker threads by their chain root (first call), so that a
+//! worker sees every behaviour after the behaviour that is its prefix.
 
 use bcenv_verif_harness::pool;
-use bcenv_verif_harness::replay::{parse_line, replay_round, Failure, Stats};
+use bcenv_verif_harness::replay::{fnv, panic_site, root_of, unescape_line, Failure, Replayer, Stats};
 use serde_json::{json, Value};
 use std::cell::RefCell;
 use std::collections::HashMap;
@@ -26,12 +26,14 @@ struct Agg {
     failures: Vec<(Failure, String)>,
     fail_counts: HashMap<String, u64>,
     samples: Vec<Value>,
-    tool_errors: u64,
 }
 
 fn merge(a: &mut Stats, b: &Stats) {
     a.behaviours += b.behaviours;
     a.evaluations += b.evaluations;
+    a.cache_hits += b.cache_hits;
+    a.cache_misses += b.cache_misses;
+    a.skipped_after_failed_prefix += b.skipped_after_failed_prefix;
     for (k, v) in &b.per_op {
         *a.per_op.entry(k.clone()).or_insert(0) += v;
     }
@@ -45,6 +47,28 @@ fn merge(a: &mut Stats, b: &Stats) {
         *a.pool_kinds.entry(k.clone()).or_insert(0) += v;
     }
     a.nontrivial.extend(b.nontrivial.iter().cloned());
+}
+
+fn guarded(rp: &mut Replayer, beh: &Value) -> Result<(), Failure> {
+    let r = std::panic::catch_unwind(std::panic::AssertUnwindSafe(|| rp.replay(beh)));
+    match r {
+        Ok(mut x) => {
+            if let Err(f) = x.as_mut() {
+                if f.kind == "panic" {
+                    let site = LAST_PANIC.with(|p| p.borrow().clone());
+                    if !site.is_empty() {
+                        f.key = format!("panic:{}:{}", f.op, panic_site(&site));
+                        f.detail = format!("{} panicked: {}", f.op, site);
+                    }
+                }
+            }
+            x
+        }
+        Err(_) => {
+            let site = LAST_PANIC.with(|p| p.borrow().clone());
+            Err(Failure { kind: "tool".into(), op: "-".into(), key: "tool:harness-panic".into(), detail: format!("harness panicked: {}", site), round: 0 })
+        }
+    }
 }
 
 fn main() {
@@ -64,6 +88,10 @@ fn main() {
         eprintln!("pool selfcheck failed: {}", e);
         std::process::exit(2);
     }
+    if let Err(e) = bcenv_verif_harness::vectors::selfcheck() {
+        eprintln!("draft test vector selfcheck failed: {}", e);
+        std::process::exit(2);
+    }
     // panics of the code under test are data: keep them quiet but remember the site
     std::panic::set_hook(Box::new(|info| {
         let loc = info.location().map(|l| format!("{}:{}:{}", l.file(), l.line(), l.column())).unwrap_or_default();
@@ -74,19 +102,18 @@ fn main() {
         } else {
             "panic".into()
         };
+        let msg = msg.lines().next().unwrap_or("").to_string();
         LAST_PANIC.with(|p| *p.borrow_mut() = format!("{} @ {}", msg, loc));
     }));
 
     if let Some(path) = one {
-        // re-execute one replay file: {"behaviour": ..., "round": r, "seed": s}
+        // re-execute one replay file: {"behaviour": ..., "seed": s}
         let text = std::fs::read_to_string(&path).expect("read replay file");
         let v: Value = serde_json::from_str(&text).expect("replay file json");
-        let beh = &v["behaviour"];
-        let beh_text = v["behaviour_text"].as_str().map(|s| s.to_string()).unwrap_or_else(|| beh.to_string());
+        let beh = if v["behaviour"].is_object() { v["behaviour"].clone() } else { serde_json::from_str(v["behaviour_text"].as_str().unwrap_or("{}")).unwrap_or(Value::Null) };
         let s = v["seed"].as_u64().unwrap_or(seed);
-        let r = v["round"].as_u64().unwrap_or(0);
-        let mut st = Stats::default();
-        match run_guarded(beh, &beh_text, s, r, &mut st) {
+        let mut rp = Replayer::new(s, v["rounds"].as_u64().unwrap_or(rounds).max(v["round"].as_u64().unwrap_or(0) + 1));
+        match guarded(&mut rp, &beh) {
             Ok(()) => {
                 println!("replay: behaviour passes");
                 std::process::exit(0)
@@ -98,87 +125,82 @@ fn main() {
         }
     }
 
-    let agg = Arc::new(Mutex::new(Agg {
-        stats: Stats::default(),
-        failures: vec![],
-        fail_counts: HashMap::new(),
-        samples: vec![],
-        tool_errors: 0,
-    }));
-    let (tx, rx) = sync_channel::<Vec<String>>(64);
-    let rx = Arc::new(Mutex::new(rx));
+    let agg = Arc::new(Mutex::new(Agg { stats: Stats::default(), failures: vec![], fail_counts: HashMap::new(), samples: vec![] }));
+    let mut txs = vec![];
     let mut handles = vec![];
     for _ in 0..threads {
-        let rx = rx.clone();
+        let (tx, rx) = sync_channel::<Vec<String>>(256);
+        txs.push(tx);
         let agg = agg.clone();
-        handles.push(std::thread::spawn(move || {
-            let mut local = Stats::default();
-            let mut lf: Vec<(Failure, String)> = vec![];
-            let mut lc: HashMap<String, u64> = HashMap::new();
-            let mut samples: Vec<Value> = vec![];
-            loop {
-                let batch = {
-                    let g = rx.lock().unwrap();
-                    g.recv()
-                };
-                let batch = match batch {
-                    Ok(b) => b,
-                    Err(_) => break,
-                };
-                for line in batch {
-                    let (beh, text) = match parse_line(&line) {
-                        Some(x) => x,
-                        None => continue,
-                    };
-                    local.behaviours += 1;
-                    if samples.len() < 2 && beh["steps"].as_array().map(|a| a.len() >= 2).unwrap_or(false) {
-                        samples.push(json!({"steps": beh["steps"], "out": beh["out"]}));
-                    }
-                    for r in 0..rounds {
-                        if let Err(f) = run_guarded(&beh, &text, seed, r, &mut local) {
-                            let c = lc.entry(f.key.clone()).or_insert(0);
-                            *c += 1;
-                            if *c <= 2 && lf.len() < 64 {
-                                lf.push((f, text.clone()));
+        handles.push(
+            std::thread::Builder::new()
+                .stack_size(256 << 20)
+                .spawn(move || {
+                    let mut rp = Replayer::new(seed, rounds);
+                    let mut lf: Vec<(Failure, String)> = vec![];
+                    let mut lc: HashMap<String, u64> = HashMap::new();
+                    let mut samples: Vec<Value> = vec![];
+                    while let Ok(batch) = rx.recv() {
+                        for text in batch {
+                            let beh: Value = match serde_json::from_str(&text) {
+                                Ok(v) => v,
+                                Err(_) => continue,
+                            };
+                            if samples.len() < 2 && beh["steps"].as_array().map(|a| a.len() >= 2).unwrap_or(false) {
+                                samples.push(json!({"steps": beh["steps"], "out": beh["out"]}));
                             }
-                            break;
+                            if let Err(f) = guarded(&mut rp, &beh) {
+                                if f.kind == "skip" {
+                                    continue;
+                                }
+                                let c = lc.entry(f.key.clone()).or_insert(0);
+                                *c += 1;
+                                if *c <= 2 && lf.len() < 64 {
+                                    lf.push((f, text.clone()));
+                                }
+                            }
                         }
                     }
-                }
-            }
-            let mut g = agg.lock().unwrap();
-            merge(&mut g.stats, &local);
-            for (k, v) in lc {
-                *g.fail_counts.entry(k).or_insert(0) += v;
-            }
-            g.failures.extend(lf);
-            if g.samples.len() < 6 {
-                g.samples.extend(samples);
-            }
-        }));
+                    let mut g = agg.lock().unwrap();
+                    merge(&mut g.stats, &rp.stats);
+                    for (k, v) in lc {
+                        *g.fail_counts.entry(k).or_insert(0) += v;
+                    }
+                    g.failures.extend(lf);
+                    if g.samples.len() < 6 {
+                        g.samples.extend(samples);
+                    }
+                })
+                .unwrap(),
+        );
     }
 
     let stdin = std::io::stdin();
     let mut log = tlc_log.map(|p| std::io::BufWriter::new(std::fs::File::create(p).expect("tlc log")));
-    let mut batch: Vec<String> = vec![];
+    let mut batches: Vec<Vec<String>> = vec![vec![]; threads];
     for line in stdin.lock().lines() {
         let line = match line {
             Ok(l) => l,
             Err(_) => continue,
         };
         if line.starts_with("<<\"BEH\"") {
-            batch.push(line);
-            if batch.len() >= 64 {
-                tx.send(std::mem::take(&mut batch)).unwrap();
+            if let Some(inner) = unescape_line(&line) {
+                let w = (fnv(root_of(&inner).unwrap_or("")) % threads as u64) as usize;
+                batches[w].push(inner);
+                if batches[w].len() >= 32 {
+                    txs[w].send(std::mem::take(&mut batches[w])).unwrap();
+                }
             }
         } else if let Some(l) = log.as_mut() {
             let _ = writeln!(l, "{}", line);
         }
     }
-    if !batch.is_empty() {
-        tx.send(batch).unwrap();
+    for (w, b) in batches.into_iter().enumerate() {
+        if !b.is_empty() {
+            txs[w].send(b).unwrap();
+        }
     }
-    drop(tx);
+    drop(txs);
     for h in handles {
         let _ = h.join();
     }
@@ -188,7 +210,6 @@ fn main() {
 
     let g = agg.lock().unwrap();
     let mut fails: Vec<Value> = vec![];
-    // keep at most 2 examples per key, max_fail in total
     let mut per_key: HashMap<String, u32> = HashMap::new();
     for (f, text) in &g.failures {
         let c = per_key.entry(f.key.clone()).or_insert(0);
@@ -196,12 +217,9 @@ fn main() {
             continue;
         }
         *c += 1;
-        if f.kind == "tool" {
-            // counted below
-        }
         fails.push(json!({
             "kind": f.kind, "op": f.op, "key": f.key, "detail": f.detail, "round": f.round,
-            "seed": seed, "behaviour_text": text,
+            "seed": seed, "rounds": rounds, "behaviour_text": text,
         }));
     }
     let tool_errors: u64 = g.fail_counts.iter().filter(|(k, _)| k.starts_with("tool:")).map(|(_, v)| *v).sum();
@@ -217,37 +235,9 @@ fn main() {
         "pool_kinds": g.stats.pool_kinds,
         "failure_counts": g.fail_counts,
         "failures": fails,
-        "tool_errors": tool_errors + g.tool_errors,
+        "tool_errors": tool_errors,
         "samples": g.samples,
+        "extra": {"prefix_cache_hits": g.stats.cache_hits, "prefix_cache_misses": g.stats.cache_misses, "skipped_after_failed_prefix": g.stats.skipped_after_failed_prefix},
     });
     std::fs::write(&report, serde_json::to_string_pretty(&rep).unwrap()).expect("write report");
-}
-
-fn run_guarded(beh: &Value, text: &str, seed: u64, round: u64, st: &mut Stats) -> Result<(), Failure> {
-    let r = std::panic::catch_unwind(std::panic::AssertUnwindSafe(|| replay_round(beh, text, seed, round, st)));
-    match r {
-        Ok(mut x) => {
-            if let Err(f) = x.as_mut() {
-                if f.kind == "panic" || f.kind == "pre" {
-                    let site = LAST_PANIC.with(|p| p.borrow().clone());
-                    if f.kind == "panic" && !site.is_empty() {
-                        let s = bcenv_verif_harness::replay::panic_site(&site);
-                        f.key = format!("panic:{}:{}", f.op, s);
-                        f.detail = format!("{} panicked: {}", f.op, site);
-                    }
-                }
-            }
-            x
-        }
-        Err(_) => {
-            let site = LAST_PANIC.with(|p| p.borrow().clone());
-            Err(Failure {
-                kind: "tool".into(),
-                op: "-".into(),
-                key: "tool:harness-panic".into(),
-                detail: format!("harness panicked: {}", site),
-                round,
-            })
-        }
-    }
 }
